@@ -29,7 +29,7 @@ ASSUMPTIONS = ['comments are stripped from the models (C14 decides comment round
 
 
 def bounds(tier):
-    return {'bfs_depth': 2 if tier == 'quick' else 3, 'ident_pairs': tier != 'quick', 'cycles': 3}
+    return {'bfs_depth': 3 if tier == 'quick' else 4, 'ident_pairs': tier != 'quick', 'cycles': 3}
 
 
 def strip_model_comments(m):
@@ -149,7 +149,7 @@ def units(tier, seed):
         names = ['a b', "a'b", 'table', 'é']
         for k in range(0, len(pairs), 6):
             us.append(('identpairs', pairs[k:k + 6], names))
-    depth = 2 if tier == 'quick' else 3
+    depth = 3 if tier == 'quick' else 4
     for first in c01.DECLS:
         us.append(('bfs', first, depth))
     return us
